@@ -208,6 +208,7 @@ Inductive op :=
 | OVsFieldName (x i didx dlen : Z) | OVsDetach (x : Z) | OVsAttach (x idx : Z) (w : bool)
 | OSdLimit (n : Z) | OSdStart (k : Z) | OSdOpen (k : Z) | OSdEnd (k : Z) | OSdCreate (k nlen rank : Z)
 | OSdInfo (k : Z) | OSdName (k i : Z) | OSdMax (n : Z) | OSdGetMax | OSdNOpen
+| OSeekAt (tag ref app origin offset pos0 : Z) | OChunkFill (tag ref k : Z)
 | OOther.
 
 Definition state := (hst * vst * sdst)%type.
@@ -311,6 +312,34 @@ Definition step_h (h : hst) (v : vst) (o : op) : hst * res :=
                if r <=? MAX_REF then (h, ok1 r) else (h, RFail [])
            | _, _ => (h, RUnspec)
            end
+  | OSeekAt tag ref app origin offset pos0 =>
+      (** Hseek(pos0, DF_START) then Hseek(offset, origin) on an existing element: the target is base + offset in
+          unbounded integers; it must lie in [0, length] (in [0, 2^31-1] for an appendable element that ends the
+          file); a refused seek leaves the position where it was *)
+      match find_elem h tag ref with
+      | Some e =>
+          let appendable := negb (app =? 0) in
+          if negb (h_known h) || (e_len e <? 0) || (pos0 <? 0) || (e_len e <? pos0)
+             || (appendable && negb (e_off e + e_len e =? h_eof h))
+             || negb ((origin =? 0) || (origin =? 1) || (origin =? 2)) then (h, RUnspec)
+          else
+            let base := if origin =? 0 then 0 else if origin =? 1 then pos0 else e_len e in
+            let target := base + offset in
+            if (0 <=? target) && (if appendable then target <=? INT32_MAX else target <=? e_len e)
+            then (h, ok1 target) else (h, RFail [Some pos0])
+      | None => (h, RUnspec)
+      end
+  | OChunkFill tag ref k =>
+      (** a chunked element of two chunks is created, refs 1..k of DFTAG_CHUNK are taken by other elements, then the
+          two chunks are written: each needs a ref of DFTAG_CHUNK; none is left beyond MAX_REF.  The result says
+          whether both chunks were stored (the writes go through a cache, the refusal surfaces at the latest when the
+          access ends); either way the file stays usable *)
+      if negb (h_known h) || (k <? 1) || (MAX_REF <? k) || (h_maxref h <? 0)
+         || existsb (fun e => (e_tag e =? DFTAG_CHUNK) || ((e_tag e =? tag) && (e_ref e =? ref))) (h_elems h)
+         || existsb (fun b => match b with (t, _, _) => t =? DFTAG_CHUNK end) (h_bulk h) then (h, RUnspec)
+      else
+        (mkH false 0 (h_ndds h) (h_free h) (-1) (set_elem h (mkE tag ref (-2) 0 false))
+             ((DFTAG_CHUNK, 1, Z.min MAX_REF (k + 2)) :: h_bulk h), ROk [Some (if k + 2 <=? MAX_REF then 1 else 0)])
   | OTagNewRef tag =>
       let iv := used_intervals h (Some tag) in
       let r := first_free (S (length iv)) iv 1 in
@@ -334,7 +363,8 @@ Definition step_v (h : hst) (v : vst) (o : op) : hst * vst * res :=
           (** a Vgroup holds at most 65535 members (16-bit count): the first refused insertion changes nothing *)
           let k := Z.max 0 (Z.min n (UINT16_MAX - g_n g)) in
           let g' := mkG (g_n g + k) (g_name g) (g_class g) (g_stored g) in
-          (h, with_vg v i g', if (k =? n) && (0 <? n) then ROk [Some n; Some (g_n g')] else RFail [Some k])
+          if k =? 0 then (h, v, RFail [Some 0])       (* nothing was accepted: nothing changes *)
+          else (h, with_vg v i g', if k =? n then ROk [Some n; Some (g_n g')] else RFail [Some k])
       | None => (h, v, RUnspec)
       end
   | OVgN slot => match get_vg v slot with Some (_, g) => (h, v, ok1 (g_n g)) | None => (h, v, RUnspec) end
@@ -514,7 +544,7 @@ Definition step_d (d : sdst) (o : op) : sdst * res :=
 Definition is_h (o : op) : bool :=
   match o with
   | OHopen _ | OReserve _ _ _ | OPut _ _ _ | OGet _ _ | OReopen | ODds | OAppendAt _ _ _ _ | OHlWrite _ _ _ _ _ _
-  | OFillRefs _ _ _ | ONewRef | OTagNewRef _ => true | _ => false end.
+  | OFillRefs _ _ _ | ONewRef | OTagNewRef _ | OSeekAt _ _ _ _ _ _ | OChunkFill _ _ _ => true | _ => false end.
 Definition is_d (o : op) : bool :=
   match o with
   | OSdLimit _ | OSdStart _ | OSdOpen _ | OSdEnd _ | OSdCreate _ _ _ | OSdInfo _ | OSdName _ _ | OSdMax _ | OSdGetMax
@@ -585,3 +615,13 @@ Definition s_product (a b : Z) : option Z := if a * b <=? INT32_MAX then Some (a
 Definition s_newref_next (maxref : Z) : option Z := if maxref <? MAX_REF then Some (maxref + 1) else None.
 Definition s_tagnewref (next : Z) : option Z := if (0 <=? next) && (next <=? MAX_REF) then Some next else None.
 Definition s_sdcreate_ok (rank namelen : Z) : bool := (rank <=? H4_MAX_VAR_DIMS) && (namelen <=? H4_MAX_NC_NAME).
+
+Definition s_hseek (appendable : bool) (origin offset posn data_len : Z) : option Z :=
+  let base := if origin =? DF_CURRENT then posn else if origin =? DF_END then data_len else 0 in
+  let target := base + offset in
+  if (0 <=? target) && (target <=? INT32_MAX) && (appendable || (target <=? data_len)) then Some target else None.
+Definition s_vpackvs_size (fnames : list Z) (namelen classlen : Z) : Z :=
+  27 + 8 * Z.of_nat (length fnames) + fold_right (fun l acc => acc + (2 + l)) 0 fnames + namelen + classlen.
+(** a lower bound of the buffer VSdetach provides: sizeof(VWRITELIST) holds VSFIELDMAX names of FIELDNAMELENMAX+1
+    bytes and six 16-bit arrays of VSFIELDMAX entries *)
+Definition vh_buffer_lower_bound : Z := VSFIELDMAX * (FIELDNAMELENMAX + 1) + 6 * 2 * VSFIELDMAX.
